@@ -34,6 +34,8 @@ def main():
     except Exception:
         pass
     sh("git -C /repo worktree add -q --detach %s HEAD" % wt)
+    # some demo.sh refer to their files as ../out/<i>/… relative to the worktree root
+    sh("ln -sfn %s /tmp/seedeval/out" % os.path.dirname(os.path.abspath(src.rstrip("/"))))
     try:
         demo = os.path.join(src, "demo.sh")
         # the agents' demo.sh are written to be run from the worktree root; paths inside refer to their own out dir
